@@ -50,7 +50,7 @@ def gen_cases(tier, seed):
         cases.append(dict(kind=kind, d=0 if kind == "ode" else int(rng.integers(1, 3)), E=E, U=U, names=names,
                           eqnames=eqn, per_u=per_u, weights=["scalar", "dict", "default"][int(rng.integers(3))],
                           obs_src=["hand", "multi"][int(rng.integers(2))], B=int(rng.integers(1, 7)),
-                          seed=seed * 100000 + k, cost=2.0))
+                          seed=seed * 100000 + k, cost=2.0, x64=bool(k % 7 != 3)))
     # built-in two-equation system (mass conservation + Navier-Stokes) on pointwise and on separable networks
     for k in range(10 if q else 100):
         cases.append(dict(kind="ns_system", net=["pinn", "spinn"][k % 2], weights=["scalar", "dict"][(k // 2) % 2],
